@@ -130,19 +130,24 @@ Theorem C01_source_arithmetic_is_the_model (S : sums) (m c : Q) :
   let N := sN S in let X := sX S in let Y := sY S in let XY := sXY S in let XX := sXX S in let YY := sYY S in
   Formulas.translation_failed = false /\
   gen_go_num N X Y XY XX YY m c == go_num S /\ gen_go_den N X Y XY XX YY m c == go_den S /\
-  (gen_go_offset_n N X Y XY XX YY m c == sY S - m * sX S /\ gen_go_offset_d N X Y XY XX YY m c == sN S /\ gen_go_offset_where = "mask"%string) /\
-  (gen_go_regain_n N X Y XY XX YY m c == sY S - sN S * c /\ gen_go_regain_d N X Y XY XX YY m c == sX S /\
-   gen_go_regain_where = "r2_mask"%string /\ gen_fill_mask = "~r2_mask & mask"%string /\
-   gen_keep_atoms = ["mask"; "param_ra.array[0] > 0"; "param_ra.array[2] > self._r2_inpaint_thresh"]) /\
+  (gen_go_offset_n N X Y XY XX YY m c == sY S - m * sX S /\ gen_go_offset_d N X Y XY XX YY m c == sN S) /\
+  (gen_go_regain_n N X Y XY XX YY m c == sY S - sN S * c /\ gen_go_regain_d N X Y XY XX YY m c == sX S) /\
   gen_ss_tot N X Y XY XX YY m c == tss_n S /\ gen_ss_res_go N X Y XY XX YY m c == rss_go S m c /\ gen_ss_res_g N X Y XY XX YY m c == rss_g S m /\
   (gen_g_gain_n N X Y XY XX YY m c == sY S /\ gen_g_gain_d N X Y XY XX YY m c == sX S).
 Proof. exact (kernel_arithmetic_tied S m c). Qed.
-Theorem C01_source_r2_shape (S : sums) (m c num den res tot d : Q) :
-  (gen_go_gain_n num den res tot == num /\ gen_go_gain_d num den res tot == den /\ gen_go_gain_where = "mask"%string) /\
-  (gen_ss_res_scale (sN S) (sX S) (sY S) (sXY S) (sXX S) (sYY S) m c == sN S /\ gen_r2_n res res res tot == res /\ gen_r2_d res res res tot == tot /\
-   gen_r2_final d == 1 - d).
-Proof. exact (r2_shape_tied S m c num den res tot d). Qed.
-Theorem C01_source_block_normalisation x na nb m : gen_gbo_norm x na nb m == x * na + nb /\ gen_gbo_offset x na nb m == m * nb /\
-  gen_gbo_gain_factor x na nb m == na /\ gen_gbo_offset_before_gain = true.
+(* ... with the guards of the source: every division restricted to the joint mask; in-painting keeps exactly the jointly valid pixels with
+   R2 > threshold and gain > 0 (Fit.go_keep) and re-estimates the gain on the other jointly valid ones; both pixel arrays zeroed outside the
+   joint mask before the sums; every box filter un-normalised, zero border, ksize = kernel_shape reversed; RSS scaled by N; R2 = 1 - RSS/TSS *)
+Theorem C01_source_r2_shape (S : sums) (m c d : Q) (r2gt mpos joint : bool) :
+  (gen_ss_res_scale (sN S) (sX S) (sY S) (sXY S) (sXX S) (sYY S) m c == sN S /\ gen_r2_final d == 1 - d) /\
+  (gen_go_gain_where r2gt mpos joint = joint /\ gen_go_offset_where r2gt mpos joint = joint /\ gen_g_gain_where r2gt mpos joint = joint /\
+   gen_r2_where r2gt mpos joint = joint /\ gen_go_remask r2gt mpos joint = joint /\
+   gen_go_keep r2gt mpos joint = (joint && (r2gt && mpos)) /\
+   gen_go_regain_where r2gt mpos joint = (joint && negb (r2gt && mpos))) /\
+  (gen_go_guards_ok = true /\ gen_go_zeroing_ok = true /\ gen_g_offset_zero_ok = true /\ gen_g_zeroing_ok = true /\ gen_r2_roles_ok = true /\
+   gen_gbo_order_ok = true /\ gen_box_filters_ok = true).
+Proof. exact (r2_shape_tied S m c d r2gt mpos joint). Qed.
+Theorem C01_source_block_normalisation x na nb m : gen_gbo_norm x na nb m == x * na + nb /\ gen_gbo_gain x na nb m == m * na /\
+  gen_gbo_offset x na nb m == m * nb.
 Proof. exact (tie_gbo x na nb m). Qed.
 Print Assumptions C01_source_arithmetic_is_the_model.
